@@ -179,6 +179,14 @@ func execC04(p *Plan, col *kernel.Collector) []kernel.Violation {
 	c.uniqueMax = maxCount <= 1
 	log := n.Disk.Log()
 	col.Add("writes_logged", int64(len(log)))
+	if dbg := os.Getenv("VERIF_DEBUG_WRITES"); dbg != "" {
+		f, _ := os.OpenFile(dbg, os.O_APPEND|os.O_CREATE|os.O_WRONLY, 0o644)
+		for i := range log {
+			fmt.Fprintf(f, "%d %s\n", i, simdisk.Describe(log[i]))
+		}
+		fmt.Fprintln(f, "----")
+		f.Close()
+	}
 	col.Add("blocks_built", int64(len(u.Blocks)-1))
 	if c.cfg.Archive {
 		col.Inc("runs_archive")
